@@ -1,4 +1,5 @@
 import GridVerif.Props.C08
+import GridVerif.Props.C08.Gen
 
 #print axioms GridVerif.C08.row_index_bij
 #print axioms GridVerif.C08.ylm_rows_spec
@@ -18,3 +19,11 @@ import GridVerif.Props.C08
 #print axioms GridVerif.C08.addition_theorem_partial
 #print axioms GridVerif.C08.ylm_norm_eq_code
 #print axioms GridVerif.C08.weights_sum
+#print axioms GridVerif.C08.gen_ylm_eq_model
+#print axioms GridVerif.C08.gen_ylm_rows_spec
+#print axioms GridVerif.C08.gen_deriv_eq_model
+#print axioms GridVerif.C08.gen_deriv_pieces
+#print axioms GridVerif.C08.gen_solid_eq_model
+#print axioms GridVerif.C08.gen_cart_to_sph_eq_model
+#print axioms GridVerif.C08.gen_jacobian_eq_model
+#print axioms GridVerif.C08.accumulator_is_extended_precision
